@@ -213,6 +213,7 @@ func (t *Translator) arrTerm(a *ArrInfo, h *HeapState) string {
 	}
 	v := a.Name + "@0"
 	t.vc.declare(v, a.Sort)
+	t.vc.verNext[v] = "next@0"
 	return v
 }
 
@@ -222,6 +223,7 @@ func (t *Translator) setArr(st *State, a *ArrInfo, term string) {
 	t.vc.declare(n, a.Sort)
 	t.assume(st, "(= "+n+" "+term+")")
 	st.heap.vers[a.Name] = n
+	t.vc.verNext[n] = st.heap.next
 }
 
 func (t *Translator) havocArr(st *State, a *ArrInfo) string {
@@ -386,6 +388,16 @@ func (t *Translator) storePath(st *State, p *Path, nv string, pos token.Pos) {
 			arr := t.arrTerm(a, st.heap)
 			cur := "(select " + arr + " " + p.ref + ")"
 			t.setArr(st, a, "(store "+arr+" "+p.ref+" "+t.setSteps(cur, p.steps, nv)+")")
+		}
+	}
+}
+
+// stampVersions records, for heap array versions created by a havoc (call, loop head, join), the allocation
+// counter of the state they belong to (used for the wfHeap facts).
+func (t *Translator) stampVersions(st *State) {
+	for _, v := range st.heap.vers {
+		if _, ok := t.vc.verNext[v]; !ok {
+			t.vc.verNext[v] = st.heap.next
 		}
 	}
 }
@@ -626,6 +638,7 @@ func (t *Translator) run() {
 		} else {
 			cur = t.join(b, ins)
 		}
+		t.stampVersions(cur)
 		t.block(b, cur)
 	}
 }
@@ -1051,6 +1064,10 @@ func (t *Translator) enterLoop(li *loopInfo, ins []edgeIn) *State {
 		if _, ok := h.iters[r]; ok {
 			ks := t.S().SortOf(r.X.Type().Underlying().(*types.Map).Key())
 			h.iters[r] = t.vc.freshConst("seen", "(Array "+ks+" Bool)")
+			// nothing is ever visited when ranging over a nil map (holds in every execution)
+			if m, known := t.vals[r.X]; known {
+				t.assume(h, "(=> (= "+m+" 0) (= "+h.iters[r]+" ((as const (Array "+ks+" Bool)) false)))")
+			}
 		}
 	}
 	if allocs {
